@@ -32,6 +32,11 @@ func genCid(t *rapid.T, label string, idx int) hexb {
 
 func genMAC(t *rapid.T, label string, idx int) hexb {
 	r := rapid.SliceOfN(rapid.Byte(), 4, 4).Draw(t, label+"r")
+	if chance(t, label+"like53", 1, 16) {
+		// a MAC whose bytes read "option 53, length 1, DISCOVER": inside a client identifier that is the first
+		// option they sit at an offset where the program looks for the message type (KF-C03-18)
+		r[1], r[2], r[3] = 0x35, 0x01, 0x01
+	}
 	if pick(t, label+"oui", 0, 0, 1) == 1 {
 		return hexb{0x00, 0x1a, 0x2b, r[1], r[2], byte(idx + 1)}
 	}
